@@ -361,3 +361,40 @@ func (x *Exec) havocByContract(s *State, con *Contract, names []string, args []V
 	s.alloc = na
 	s.sealHavoc()
 }
+
+// sort.Strings(x): x becomes a sorted permutation of its old contents.
+func init() {
+	modelDocs["sort.Strings"] = "the slice becomes a permutation of its old contents (bijection on 0..len) in non-decreasing order"
+	models["sort.Strings"] = func(x *Exec, s *State, in ssa.Instruction, a []Value, c *ssa.CallCommon) (Value, bool) {
+		sl := a[0]
+		n := sl.F[2].S
+		off := sl.F[1].S
+		key := "E:string"
+		x.regKey(key, arrSort(sInt, arrSort(sInt, sStr)))
+		x.frameUnless = app("<=", n, "1") // at most one element: nothing moves
+		x.frameCheck(s, key, sl.F[0].S, in)
+		x.frameUnless = ""
+		old := s.read(s.heap, key, sl.F[0].S)
+		na := x.fresh("sorted", arrSort(sInt, sStr))
+		perm := x.fresh("perm", sInt)
+		pf, pinv := "perm_"+perm, "pinv_"+perm
+		x.declareFun(pf, []string{sInt}, sInt)
+		x.declareFun(pinv, []string{sInt}, sInt)
+		u := &universal{vars: []AnyVar{{"i", ""}}, types: []types.Type{types.Typ[types.Int]}, sorts: []string{sInt}, done: map[string]bool{}}
+		u.gen = func(st *State, ch []string) string {
+			t := ch[0]
+			inr := and(app("<=", "0", t), app("<", t, n))
+			fwd := and(eq(sel(na, app("+", off, t)), sel(old, app("+", off, app(pf, t)))), app("<=", "0", app(pf, t)), app("<", app(pf, t), n), eq(app(pinv, app(pf, t)), t))
+			bwd := and(eq(sel(na, app("+", off, app(pinv, t))), sel(old, app("+", off, t))), app("<=", "0", app(pinv, t)), app("<", app(pinv, t), n), eq(app(pf, app(pinv, t)), t))
+			next := app("+", t, "1")
+			srt := imp(app("<", next, n), app("str.<=", sel(na, app("+", off, t)), sel(na, app("+", off, next))))
+			return and(imp(inr, and(fwd, bwd, srt)), imp(not(inr), eq(sel(na, app("+", off, t)), sel(old, app("+", off, t)))))
+		}
+		u.more = func(ch []string) []string { return []string{app(pinv, ch[0]), app(pf, ch[0])} }
+		s.univ = append(s.univ, u)
+		s.instantiate(u)
+		s.writeWhole(key, sl.F[0].S, na)
+		return Value{}, true
+	}
+	modelModKeys["sort.Strings"] = func(x *Exec, s *State) []string { return []string{"E:string"} }
+}
